@@ -71,6 +71,7 @@ def program(rng, tier):
         dims = [rng.choice(pool if rng.random() < 0.5 else pool[:12]) for _ in range(rank)]
         lines.append('ab_chunk %s %d' % (lst([str(x) for x in dims]), rng.choice([1, 1, 2, 4, 8, 8, 16])))
     lines.append('ab_chunk [] 8')
+    lines.append('ab_compare %s' % rng.choice('BSOADTMG'))
     for kind in ('T', 'M'):
         for _ in range(2):
             lines.append('ab_tagidx %s %s %s' % (kind, rng.choice(['0', '1', '1', '2', '4294967296', '18446744073709551615']), rng.choice(['0', '1', '1', '2', '18446744073709551615'])))
